@@ -30,6 +30,7 @@ type CIDCase struct {
 	Form     string
 	Spec     CIDSpec
 	Expected map[string]bool // sink id -> must a flow be reported there?
+	Ident    [][2]string     // second family: the identifier's yaml keys in order (overrides Spec)
 }
 
 var cidPkgPats = []string{"", "^zsubj/lib$", "lib", "(foo|zsubj/lib)", "nomatch"}
@@ -42,8 +43,8 @@ func cidMethodPats(target string) []string {
 }
 
 var cidForms = map[string][]string{
-	"source":    {"direct", "methodV", "methodP", "iface", "fvalue", "mvalue", "mexpr", "inClosure"},
-	"sink":      {"direct", "methodV", "methodP", "iface", "fvalue", "mvalue", "mexpr", "inClosure", "deferred"},
+	"source":    {"direct", "methodV", "methodP", "iface", "fvalue", "mvalue", "mexpr", "inClosure", "fvalueDyn", "fvalueMixMV", "fvalueMixME", "fvalueMixGen", "fparamMix"},
+	"sink":      {"direct", "methodV", "methodP", "iface", "fvalue", "mvalue", "mexpr", "inClosure", "deferred", "fvalueDyn", "fvalueMixMV", "fvalueMixME", "fvalueMixGen", "fparamMix"},
 	"sanitizer": {"direct", "methodV", "iface", "fvalue"},
 	"validator": {"direct", "methodV", "iface", "fvalue"},
 }
@@ -95,6 +96,17 @@ func (Oth) Put1(x string)        {}
 func (Oth) San1(x string) string { return x }
 func (Oth) Val1(x string) bool   { return len(x) > 2 }
 
+func Get1Of(s Src) string         { return "" }
+func Put1Of(s Src, x string)      {}
+func Neutral() string             { return "" }
+func (Src) Neutral() string       { return "" }
+func GenNeutral[T any]() string   { return "" }
+func NeutralPut(x string)         {}
+func (Src) NeutralPut(x string)   {}
+func GenNeutralPut[T any](x string) {}
+func NeutralOf(s Src) string      { return "" }
+func NeutralPutOf(s Src, x string) {}
+
 type Doer interface {
 	Get1() string
 	Put1(x string)
@@ -117,6 +129,30 @@ func cidCall(form, base, args string) (setup []string, call string, recv string)
 		return []string{"var d lib.Doer = lib.Src{}"}, "d." + base + "(" + args + ")", "Src"
 	case "fvalue":
 		return []string{"fv := lib." + base}, "fv(" + args + ")", ""
+	case "fvalueDyn", "fvalueMixMV", "fvalueMixME", "fvalueMixGen", "fparamMix":
+		// a function value with several possible callees: a neutral one first (plain function / bound method value /
+		// method expression / generic instance - the last three have no package in SSA), the target second
+		neutral := "Neutral"
+		if args != "" {
+			neutral = "NeutralPut"
+		}
+		first := map[string]string{"fvalueDyn": "lib." + neutral, "fvalueMixMV": "lib.Src{}." + neutral, "fvalueMixGen": "lib.Gen" + neutral + "[int]",
+			"fparamMix": "lib.Src{}." + neutral}[form]
+		if form == "fvalueMixME" {
+			// method expression: signature takes the receiver first; the target is wrapped in a function of that signature
+			a := "lib.Src{}"
+			if args != "" {
+				a += ", " + args
+			}
+			return []string{"fv := lib.Src." + neutral, "if rt.Cond() {\n\tfv = lib." + base + "Of\n}"}, "fv(" + a + ")", ""
+		}
+		if form == "fparamMix" {
+			if args == "" {
+				return []string{"_ = runA(" + first + ")"}, "runA(lib." + base + ")", ""
+			}
+			return []string{"runA(" + first + ", \"c\")"}, "runA(lib." + base + ", " + args + ")", ""
+		}
+		return []string{"fv := " + first, "if rt.Cond() {\n\tfv = lib." + base + "\n}"}, "fv(" + args + ")", ""
 	case "mvalue":
 		return []string{"mv := lib.Src{}." + base}, "mv(" + args + ")", "Src"
 	case "mexpr":
@@ -159,6 +195,19 @@ func cidCase(role, form, base, other string, spec CIDSpec) CIDCase {
 		ctx = "main" // the closure's name main$1 still contains "main"
 	}
 	var sites []cidSite
+	var decls []string
+	name := base
+	if form == "fvalueMixME" {
+		name = base + "Of"
+	}
+	if form == "fparamMix" {
+		ctx = "zsubj/main.runA"
+		if role == "source" {
+			decls = append(decls, "func runA(g func() string) string { return g() }")
+		} else {
+			decls = append(decls, "func runA(g func(string), x string) { g(x) }")
+		}
+	}
 	switch role {
 	case "source":
 		setup, call, recv := cidCall(form, base, "")
@@ -170,7 +219,7 @@ func cidCase(role, form, base, other string, spec CIDSpec) CIDCase {
 			body = append(body, "v = "+call)
 		}
 		body = append(body, "rt.Sink1(v)", "w := lib."+other+"()", "rt.Sink3(w)", "u := lib.Oth{}."+base+"()", "rt.Sink4(u)")
-		sites = []cidSite{{"1", LibPath, base, recv, ctx}, {"3", LibPath, other, "", "main"}, {"4", LibPath, base, "Oth", "main"}}
+		sites = []cidSite{{"1", LibPath, name, recv, ctx}, {"3", LibPath, other, "", "main"}, {"4", LibPath, base, "Oth", "main"}}
 	case "sink":
 		setup, call, recv := cidCall(form, base, "x1")
 		body = append(body, "x1 := rt.Source1()", "x3 := rt.Source3()", "x4 := rt.Source4()")
@@ -185,7 +234,7 @@ func cidCase(role, form, base, other string, spec CIDSpec) CIDCase {
 		}
 		body = append(body, "lib."+other+"(x3)", "lib.Oth{}."+base+"(x4)")
 		// for sinks the observing "sink id" is the SOURCE id of the data passed
-		sites = []cidSite{{"1", LibPath, base, recv, ctx}, {"3", LibPath, other, "", "main"}, {"4", LibPath, base, "Oth", "main"}}
+		sites = []cidSite{{"1", LibPath, name, recv, ctx}, {"3", LibPath, other, "", "main"}, {"4", LibPath, base, "Oth", "main"}}
 	case "sanitizer":
 		setup, call, recv := cidCall(form, base, "x1")
 		body = append(body, "x1 := rt.Source1()", "x3 := rt.Source3()", "x4 := rt.Source4()")
@@ -197,7 +246,7 @@ func cidCase(role, form, base, other string, spec CIDSpec) CIDCase {
 			body = append(body, "y = "+call)
 		}
 		body = append(body, "rt.Sink1(y)", "z := lib."+other+"(x3)", "rt.Sink3(z)", "t := lib.Oth{}."+base+"(x4)", "rt.Sink4(t)")
-		sites = []cidSite{{"1", LibPath, base, recv, ctx}, {"3", LibPath, other, "", "main"}, {"4", LibPath, base, "Oth", "main"}}
+		sites = []cidSite{{"1", LibPath, name, recv, ctx}, {"3", LibPath, other, "", "main"}, {"4", LibPath, base, "Oth", "main"}}
 	case "validator":
 		setup, call, recv := cidCall(form, base, "x1")
 		body = append(body, "x1 := rt.Source1()", "x3 := rt.Source3()", "x4 := rt.Source4()")
@@ -208,7 +257,7 @@ func cidCase(role, form, base, other string, spec CIDSpec) CIDCase {
 			body = append(body, "if "+call+" {", "\trt.Sink1(x1)", "}")
 		}
 		body = append(body, "if lib."+other+"(x3) {", "\trt.Sink3(x3)", "}", "if (lib.Oth{})."+base+"(x4) {", "\trt.Sink4(x4)", "}")
-		sites = []cidSite{{"1", LibPath, base, recv, ctx}, {"3", LibPath, other, "", "main"}, {"4", LibPath, base, "Oth", "main"}}
+		sites = []cidSite{{"1", LibPath, name, recv, ctx}, {"3", LibPath, other, "", "main"}, {"4", LibPath, base, "Oth", "main"}}
 	}
 	exp := map[string]bool{}
 	for _, s := range sites {
@@ -225,7 +274,7 @@ func cidCase(role, form, base, other string, spec CIDSpec) CIDCase {
 			exp[s.sink] = !m
 		}
 	}
-	src := "package main\n\nimport (\n\t\"" + LibPath + "\"\n\t\"" + RTPath + "\"\n)\n\nvar _ = rt.Cond\n\nfunc main() {\n" + indent(strings.Join(body, "\n"), 1) + "\n}\n"
+	src := "package main\n\nimport (\n\t\"" + LibPath + "\"\n\t\"" + RTPath + "\"\n)\n\nvar _ = rt.Cond\n\n" + strings.Join(decls, "\n") + "\n\nfunc main() {\n" + indent(strings.Join(body, "\n"), 1) + "\n}\n"
 	sig := fmt.Sprintf("cid[%s,%s,pkg=%q,method=%q,recv=%q,ctx=%q]", role, form, spec.Package, spec.Method, spec.Receiver, spec.Context)
 	atoms := []string{"role:" + role, "form:" + form, "family:cid"}
 	if spec.Receiver != "" {
